@@ -63,7 +63,10 @@ def setup(N, K, ns):
     return dict(n1=n1, n2=n2, k=k, m=m, sign=sign, off=off, x_l=x_l, x_r=x_r, p1=p1, p2=p2, p3=p3, lam_l=lam_l, lam_r=lam_r, ratio=ratio)
 
 
-def main(out):
+MAXA = 14
+
+
+def build_rows():
     rows = []
     for ci, (N, K, ns) in enumerate(CASES):
         s = setup(N, K, ns)
@@ -81,9 +84,9 @@ def main(out):
             if F < 0.03 or F > 0.97:
                 continue
             cand.append((j, y, F))
-        if len(cand) > 14:
-            step = len(cand) / 14.0
-            cand = [cand[int(i * step)] for i in range(14)]
+        if len(cand) > MAXA:
+            step = len(cand) / float(MAXA)
+            cand = [cand[int(i * step)] for i in range(MAXA)]
         # regions 2 / 3 (exponential tails): y = floor(x_l + ln(v)/lambda_l) resp. floor(x_r - ln(v)/lambda_r); accepted iff
         # v (u - p1) lambda_l <= f(y)/f(m) resp. v (u - p2) lambda_r <= f(y)/f(m): the second words returning y form an interval
         rt = []
@@ -113,6 +116,15 @@ def main(out):
         at = ',\n      '.join('[w1 |-> "%d", out |-> %d, probe |-> "%d", lo |-> %s, hi |-> %s]' % (w1, o, int(floor(pr * 2 ** 64)), l14(floor(lo * 2 ** 64)), l14(floor(hi * 2 ** 64))) for (w1, o, pr, lo, hi) in rt)
         anchors = ',\n      '.join('[w1 |-> "%d", out |-> %d, dy |-> %d, frac |-> %s]' % (j << 50, s['off'] + s['sign'] * y, y - s['m'], l14(floor(F * 2 ** 64))) for (j, y, F) in cand)
         rows.append('  [id |-> %d, N |-> "%d", K |-> "%d", n |-> "%d", m |-> %d,\n   r1 |-> <<\n      %s>>,\n   rt |-> <<\n      %s>>]' % (ci + 1, N, K, ns, s['m'], anchors, at))
+    return rows
+
+
+def main(out):
+    global CASES, MAXA
+    rows_quick = build_rows()
+    CASES = CASES + [(2000, 1000, 400), (100000, 30000, 20000), (500, 250, 250), (20000, 19000, 15000), (1 << 30, 1 << 29, 5000), (300, 150, 100)]
+    MAXA = 40
+    rows_thorough = build_rows()
     text = '''----------------------------- MODULE H2peTable -----------------------------
 (***************************************************************************)
 (* GENERATED by tools/gen_h2pe_table.py (mpmath, 50 digits) - do not edit. *)
@@ -125,8 +137,12 @@ EXTENDS Integers
 HTab == <<
 %s
 >>
+
+HTabT == <<
+%s
+>>
 =============================================================================
-''' % ',\n'.join(rows)
+''' % (',\n'.join(rows_quick), ',\n'.join(rows_thorough))
     open(out, 'w').write(text)
     print('wrote', out)
 
